@@ -13,7 +13,6 @@ import (
 	"encoding/binary"
 	"errors"
 	"fmt"
-	"io"
 	"net"
 	"net/netip"
 	"os"
@@ -369,7 +368,7 @@ func execGlueRun(f []string) vlib.Res {
 	resp.Question = []dns.Question{{Name: qname, Qtype: dns.TypeA, Qclass: dns.ClassINET}}
 	probeSet := map[string]bool{}
 	for _, h := range hosts {
-		probeSet[h] = true
+		probeSet[strings.ToLower(h)] = true // the glue caches are keyed case-insensitively
 	}
 	for _, e := range splitList(f[6], ";") {
 		p := strings.Split(e, "/")
@@ -744,5 +743,3 @@ func execClr(f []string) vlib.Res {
 	}
 	return vlib.Res{Impl: fmt.Sprintf("ns=%d extra=%d opt=%s ans=%d", len(out.Ns), nonOpt, vlib.B(opt), len(out.Answer)), Oracle: or, Tags: "nt"}
 }
-
-var _ = io.EOF
